@@ -45,7 +45,7 @@ type responseWriter struct {
 	beforeFuncs []BeforeFunc // The list of functions to be called before written to the response.
 
 	writeHeaderOnce sync.Once
-	beforePanicked  bool // Whether a before function has panicked, in which case no status has been sent.
+	beforePanicked  bool // Whether a before function (or the underlying WriteHeader) has panicked, in which case no status has been sent.
 }
 
 // BeforeFunc is a function that is called before the ResponseWriter is written.
@@ -69,8 +69,9 @@ func (w *responseWriter) callBefore() {
 
 func (w *responseWriter) WriteHeader(s int) {
 	if w.beforePanicked {
-		// A before function has panicked so the status has never been sent, the next
-		// call (e.g. made by the Recovery) must still be able to send one.
+		// A before function (or the underlying writer, for an invalid status code) has
+		// panicked so the status has never been sent, the next call (e.g. made by the
+		// Recovery) must still be able to send one.
 		w.beforePanicked = false
 		w.beforeFuncs = nil // The remaining ones must not fire while the panic is being handled.
 		w.writeHeaderOnce = sync.Once{}
@@ -81,11 +82,11 @@ func (w *responseWriter) WriteHeader(s int) {
 			return
 		}
 
-		completed := false
-		defer func() { w.beforePanicked = !completed }()
+		sent := false
+		defer func() { w.beforePanicked = !sent }()
 		w.callBefore()
-		completed = true
 		w.ResponseWriter.WriteHeader(s)
+		sent = true
 		atomic.StoreInt32(&w.status, int32(s))
 	})
 }
